@@ -60,17 +60,34 @@ def nodelist_history(rng, res):
     blocked = sorted(rng.sample(range(cpn), rng.randint(0, min(2, cpn - 1)))) \
               if cpn > 1 else []
 
+    # NUMA aware nodes (as Pilot.nodelist builds them when the platform has a
+    # numa_domain_map): two domains splitting cores and GPUs
+    numa = cpn >= 2 and not blocked and rng.random() < 0.35
+    dmap = None
+    if numa:
+        h = cpn // 2
+        g = gpn // 2
+        dmap = {0: rp.NumaDomain(cores=list(range(0, h)),
+                                 gpus=list(range(0, g))),
+                1: rp.NumaDomain(cores=list(range(h, cpn)),
+                                 gpus=list(range(g, gpn)))}
+
     def mknode(i):
         cores = [rpc.FREE] * cpn
         for b in blocked:
             cores[b] = rpc.DOWN
-        return rp.Node({'index': i, 'name': 'n%d' % i, 'cores': cores,
-                        'gpus': [rpc.FREE] * gpn, 'lfs': lfs, 'mem': mem})
+        d = {'index': i, 'name': 'n%d' % i, 'cores': cores,
+             'gpus': [rpc.FREE] * gpn, 'lfs': lfs, 'mem': mem}
+        if numa:
+            return rp.NumaNode(d, dmap)
+        return rp.Node(d)
 
     nl = rp.NodeList(nodes=[mknode(i) for i in range(nn)])
     nl.verify()
     case = {'cpn': cpn, 'gpn': gpn, 'nodes': nn, 'lfs': lfs, 'mem': mem,
-            'blocked': blocked, 'ops': []}
+            'blocked': blocked, 'numa': numa, 'ops': []}
+    if numa:
+        res.count('nodelist_numa_histories')
 
     cores, gpus, lfsb, memb = dict(), dict(), dict(), dict()
     live = dict()
@@ -95,7 +112,8 @@ def nodelist_history(rng, res):
                 n_gpus=rng.choice([0, 0, rng.randint(0, gpn)]) if gpn else 0,
                 gpu_occupation=gocc,
                 lfs=rng.choice([0, 0, 30, 60]) if lfs else 0,
-                mem=rng.choice([0, 0, 30, 60]) if mem else 0)
+                mem=rng.choice([0, 0, 30, 60]) if mem else 0,
+                numa=bool(numa and rng.random() < 0.7))
         n = rng.choice([1, 1, 2, 3, 4])
         key = 'a%d' % k
         k += 1
@@ -144,7 +162,8 @@ def nodelist_history(rng, res):
                     held = book.setdefault(ni, dict())
                     held[key] = held.get(key, 0) + amt
                     if sum(held.values()) > cap + EPS:
-                        res.violation('nodelist-%s-overcommit' % nm,
+                        res.violation('nodelist-%s-overcommit%s'
+                                      % (nm, '/numa' if numa else ''),
                                       'node %d: %s > %s' % (ni, held, cap),
                                       case)
     return case
